@@ -20,8 +20,15 @@ VERIF = Path(__file__).resolve().parent.parent
 PY = "/venv/bin/python"
 
 
+def _default_sigint():
+    # a shell that starts this script with `&` leaves SIGINT ignored; a demo that sends itself a
+    # real SIGINT needs Python's default handler, which is only installed when SIGINT is not ignored
+    import signal
+    signal.signal(signal.SIGINT, signal.SIG_DFL)
+
+
 def sh(cmd, **kw):
-    p = subprocess.run(cmd, shell=isinstance(cmd, str), stdout=subprocess.PIPE, stderr=subprocess.STDOUT, text=True, **kw)
+    p = subprocess.run(cmd, preexec_fn=_default_sigint, shell=isinstance(cmd, str), stdout=subprocess.PIPE, stderr=subprocess.STDOUT, text=True, **kw)
     return p.returncode, p.stdout
 
 
